@@ -127,6 +127,18 @@ impl From<Vec<u8>> for BitBuffer {
     }
 }
 
+impl BitBuffer {
+    /// Multi-bit reads must not reach beyond the `write_position`, like `read_bit`.
+    #[inline]
+    fn ensure_can_read_bits(&self, bit_len: usize) -> Result<(), Error> {
+        if bit_len > self.write_position.saturating_sub(self.read_position) {
+            Err(Error::insufficient_data_in_source_buffer())
+        } else {
+            Ok(())
+        }
+    }
+}
+
 impl BitRead for BitBuffer {
     #[inline]
     fn read_bit(&mut self) -> Result<bool, Error> {
@@ -139,6 +151,7 @@ impl BitRead for BitBuffer {
 
     #[inline]
     fn read_bits(&mut self, dst: &mut [u8]) -> Result<(), Error> {
+        self.ensure_can_read_bits(dst.len() * BYTE_LEN)?;
         BitRead::read_bits(&mut (&self.buffer[..], &mut self.read_position), dst)
     }
 
@@ -148,6 +161,7 @@ impl BitRead for BitBuffer {
         dst: &mut [u8],
         dst_bit_offset: usize,
     ) -> Result<(), Error> {
+        self.ensure_can_read_bits((dst.len() * BYTE_LEN).saturating_sub(dst_bit_offset))?;
         BitRead::read_bits_with_offset(
             &mut (&self.buffer[..], &mut self.read_position),
             dst,
@@ -157,6 +171,7 @@ impl BitRead for BitBuffer {
 
     #[inline]
     fn read_bits_with_len(&mut self, dst: &mut [u8], dst_bit_len: usize) -> Result<(), Error> {
+        self.ensure_can_read_bits(dst_bit_len)?;
         BitRead::read_bits_with_len(
             &mut (&self.buffer[..], &mut self.read_position),
             dst,
@@ -171,6 +186,7 @@ impl BitRead for BitBuffer {
         dst_bit_offset: usize,
         dst_bit_len: usize,
     ) -> Result<(), Error> {
+        self.ensure_can_read_bits(dst_bit_len)?;
         BitRead::read_bits_with_offset_len(
             &mut (&self.buffer[..], &mut self.read_position),
             dst,
@@ -263,6 +279,18 @@ impl<'a> From<&'a BitBuffer> for Bits<'a> {
     }
 }
 
+impl Bits<'_> {
+    /// Multi-bit reads must not reach beyond the declared bit length, like `read_bit`.
+    #[inline]
+    fn ensure_can_read_bits(&self, bit_len: usize) -> Result<(), Error> {
+        if bit_len > self.len.saturating_sub(self.pos) {
+            Err(Error::insufficient_data_in_source_buffer())
+        } else {
+            Ok(())
+        }
+    }
+}
+
 impl BitRead for Bits<'_> {
     #[inline]
     fn read_bit(&mut self) -> Result<bool, Error> {
@@ -275,6 +303,7 @@ impl BitRead for Bits<'_> {
 
     #[inline]
     fn read_bits(&mut self, dst: &mut [u8]) -> Result<(), Error> {
+        self.ensure_can_read_bits(dst.len() * BYTE_LEN)?;
         BitRead::read_bits(&mut (self.slice, &mut self.pos), dst)
     }
 
@@ -284,11 +313,13 @@ impl BitRead for Bits<'_> {
         dst: &mut [u8],
         dst_bit_offset: usize,
     ) -> Result<(), Error> {
+        self.ensure_can_read_bits((dst.len() * BYTE_LEN).saturating_sub(dst_bit_offset))?;
         BitRead::read_bits_with_offset(&mut (self.slice, &mut self.pos), dst, dst_bit_offset)
     }
 
     #[inline]
     fn read_bits_with_len(&mut self, dst: &mut [u8], dst_bit_len: usize) -> Result<(), Error> {
+        self.ensure_can_read_bits(dst_bit_len)?;
         BitRead::read_bits_with_len(&mut (self.slice, &mut self.pos), dst, dst_bit_len)
     }
 
@@ -299,6 +330,7 @@ impl BitRead for Bits<'_> {
         dst_bit_offset: usize,
         dst_bit_len: usize,
     ) -> Result<(), Error> {
+        self.ensure_can_read_bits(dst_bit_len)?;
         BitRead::read_bits_with_offset_len(
             &mut (self.slice, &mut self.pos),
             dst,
@@ -335,7 +367,7 @@ impl ScopedBitRead for Bits<'_> {
 
     #[inline]
     fn remaining(&self) -> usize {
-        self.len - self.pos
+        self.len.saturating_sub(self.pos)
     }
 }
 
